@@ -1,11 +1,14 @@
-From Verif Require Import Common Json JsonText C12_Model C12_Spec C12_ConcModel C12_ConcSpec C12_FsModel C12_FsSpec.
+From Verif Require Import Common Json JsonText C12_Model C12_Spec C12_ConcModel C12_ConcSpec C12_FsModel C12_FsSpec C12_PlaceModel C12_PlaceSpec.
 Open Scope N_scope.
 
 (* three case classes: one execution driven through the operator (input, observation); many
    executions of Hook.Run at the same time (C12_ConcModel / C12_ConcSpec); one execution driven through
    the operator whose hook writes each output in a way of its own, in chunks (C12_FsModel / C12_FsSpec) *)
 Definition run_case := (input * observation)%type.
-Inductive case := CRun (c : run_case) | CConc (ci : cinput) (o : cobs) | CWays (w : winput) (o : observation).
+(* a fourth class: the hooks of a tree of directories, files and symbolic links, found by the real discovery and
+   run one after the other by Hook.Run; every hook process reports where it ran (C12_PlaceModel / C12_PlaceSpec) *)
+Inductive case := CRun (c : run_case) | CConc (ci : cinput) (o : cobs) | CWays (w : winput) (o : observation)
+                | CPlace (pi : pinput) (os : list pobs1) (bad : bool).
 
 (* the model's outcome in the observation's vocabulary; the OS facts are taken from the
    implementation's observation (they are not modelled), and so is the presence of the probe
@@ -154,17 +157,38 @@ Definition agrees_conc (ci : cinput) (o : cobs) : bool :=
   && list_eqb N.eqb (co_held m) (co_held o)
   && negb (co_bad o).
 
-Inductive mobs := MRun (o : observation) | MConc (o : cobs).
+(* ------------------------------------------------------------------ the placement class *)
+
+Definition model_pobs (i : pinput) (o : pobs1) : pobs1 :=
+  let l := model_place i (po_rel o) in
+  mkPO (po_rel o) (l_started l) (l_argv0 l) (l_program l) (l_cwd l) (model_settings i (po_rel o)) (negb (l_started l)) 0.
+(* a hook that was not started reports nothing: only started / failed / temp files are compared then *)
+Definition agrees_place1 (i : pinput) (o : pobs1) : bool :=
+  let m := model_pobs i o in
+  Bool.eqb (po_started m) (po_started o)
+  && Bool.eqb (po_failed m) (po_failed o)
+  && (po_tmp_after m =? po_tmp_after o)
+  && (if po_started o
+      then list_eqb N.eqb (po_argv0 m) (po_argv0 o) && (po_program m =? po_program o)
+           && (po_cwd m =? po_cwd o) && optN_eqb (po_settings m) (po_settings o)
+      else true).
+Definition agrees_place (i : pinput) (os : list pobs1) (bad : bool) : bool :=
+  forallb (agrees_place1 i) os && negb bad.
+
+Inductive mobs := MRun (o : observation) | MConc (o : cobs) | MPlace (os : list pobs1).
 Definition model_obs (c : case) : mobs :=
   match c with
   | CRun c => MRun (model_run_obs c)
   | CConc ci _ => MConc (model_conc_obs ci)
   | CWays w o => MRun (model_ways_obs (w, o))
+  | CPlace i os _ => MPlace (map (model_pobs i) os)
   end.
 Definition agrees (c : case) : bool :=
-  match c with CRun c => agrees_run c | CConc ci o => agrees_conc ci o | CWays w o => agrees_ways w o end.
+  match c with CRun c => agrees_run c | CConc ci o => agrees_conc ci o | CWays w o => agrees_ways w o
+  | CPlace i os bad => agrees_place i os bad end.
 Definition holds (c : case) : bool :=
-  match c with CRun c => P (fst c) (snd c) | CConc ci o => P_conc ci o | CWays w o => P_ways cls_patch w o end.
+  match c with CRun c => P (fst c) (snd c) | CConc ci o => P_conc ci o | CWays w o => P_ways cls_patch w o
+  | CPlace i os _ => P_place i os end.
 
 Definition mismatches (cs : list case) : list N := indices_where (fun c => negb (agrees c)) cs.
 Definition spec_violations (cs : list case) : list N := indices_where (fun c => negb (holds c)) cs.
